@@ -21,7 +21,7 @@ C[PA + 'slice'] = dict(
 C[PA + 'add_labile_mods'] = dict(
     params=dict(self='Annotation', mods='Optional[ModList]', append='bool'), returns='None', mutates=['self'], trusted=True,
     requires=[('onto-a-piece-without-labile-mods', 'self._labile_mods is None and mods is not None')],
-    bounded_by='add_* stores: add_internal_mod / add_nterm_mods / add_cterm_mods proved in contracts/stores.py; the others bounded/C20.py', raises={},
+    bounded_by='add_* stores: bodies proved (with exact values) in contracts/stores.py', raises={},
     ensures=[('labile-mods-attached', 'self_final._labile_mods is not None and some(self_final._labile_mods) == some(mods)'),
              ('nothing-else', 'rest_same(self_final, self)')])
 _PIECE = ('(same(L[j], nolab(self).slice(j, j + 1)) if (j > 0 or not self._labile_mods) else '
